@@ -165,7 +165,7 @@ def prepare_attributes(attrs, dyn_attributes, i18n_attributes,
     drop = {attribute['name']
             for attribute, (ns, value) in zip(attrs, ns_attributes)
             if ns in drop_ns or (
-                ns == XMLNS_NS and
+                (ns == XMLNS_NS or attribute['name'] == 'xmlns') and
                 attribute['value'] in drop_ns)}
 
     attributes = []
